@@ -94,6 +94,37 @@ CHECKS = {
         "durable writes must be readable with their latest durable value or a later one, nothing resurrected or invented.",
         "Trusted: durability ledger from wal.synced_up_to and WAL sequence numbers taken at invocation; real-time order of same-key ops at the client boundary.",
     ),
+    "C05": (
+        "exploration",
+        "DESIGN.md 5/C05",
+        "runtime monitoring: differential per-entity delivery multisets (ParallelSimulation vs one sequential Simulation), time-travel discard probe, conservation of cross-partition events, GIL-schedule perturbation via sys.monitoring",
+        "534 generated partitioned models per quick run (boundary-aimed event times, exact-minimum cross delays, idle partitions, far-from-epoch start times, latency links, independent partitions, config validation) each run "
+        "sequentially, in parallel, and under K perturbed thread schedules (switch interval 1e-6 s, yields injected at LINE events of parallel/*.py and core/simulation.py); results must agree.",
+        "Trusted: stateless script entities (so the permitted same-timestamp reordering cannot change behaviour); only GIL-level interleavings are reachable.",
+    ),
+    "C08": (
+        "exploration",
+        "DESIGN.md 5/C08",
+        "runtime monitoring: per-request ledger from harness source to sink, in-service sampling after every delivery, work-conservation check at the end of every instant, exact reference models for every queue policy",
+        "13 500 cases per quick run: policy op strings against exact models (order, capacity, conservation) and tagged-request pipelines through Queue+Driver, QueuedResource, Server, ThreadPool, industrial variants and two-stage topologies "
+        "with same-nanosecond bursts arriving through different hop counts. 1 known finding (DynamicConcurrency.set_limit does not poll) is pinned.",
+        "Trusted: reference policy models in hsverif/c08_policy.py; a dequeued request dropped and counted in requests_rejected is read as rejected-and-counted.",
+    ),
+    "C11": (
+        "exploration",
+        "DESIGN.md 5/C11",
+        "runtime monitoring: Raft node public state and a recording state machine sampled after every delivered event under scripted adversarial delivery, partitions and crash windows; history oracles for the five Raft safety properties plus bounded liveness",
+        "4 400 runs per quick tier (7.5 M deliveries): chaos, duelling candidates, calm liveness, and two scripted adversaries (stale acknowledgements, figure-8). Election safety, log matching, leader completeness, commit monotonicity, "
+        "state-machine safety, submit-future correctness decided from sampled histories.",
+        "Trusted: CrashNode keeps node state (true restart with persistent-state reload is not expressible); mechanism classifier only labels, never suppresses unexplained roots.",
+    ),
+    "C16": (
+        "exploration",
+        "DESIGN.md 5/C16",
+        "runtime monitoring: client-boundary histories with unique values through real caches, capacity / policy-key-set / dirty-set sampled after every step and delivery, interval-rule staleness oracle, write-back loss check after final flush",
+        "6 800 histories per quick run over CachedStore x 9 eviction policies x write-through/back, MultiTierCache, SoftTTLCache, PageCache with overlapping miss-fills, writes, deletes, invalidations, flushes.",
+        "Trusted: invalidate()/invalidate_all() on a dirty write-back key is an explicit discard (documented contract) and is skipped, counted in evidence.",
+    ),
     "C17": (
         "exploration",
         "DESIGN.md 5/C17",
@@ -108,6 +139,13 @@ CHECKS = {
         "10 600 cases per quick run: 1.4 M event pairs compared for Lamport / vector / HLC clocks under skewed, drifting and backward physical clocks; CRDT value vs spec after every op, replica equality for equal update sets, "
         "merge laws, dict round trips, CRDTStore gossip fixpoints in real simulations.",
         "Trusted: harness happened-before closure and op-based specifications in hsverif/props/c18.py.",
+    ),
+    "C19": (
+        "exploration",
+        "DESIGN.md 5/C19",
+        "runtime monitoring: per-message accounting at the end of every instant, dispatch/receipt logs of harness consumers in real simulations, offset/ownership invariants after every membership change",
+        "3 900 cases per quick run: MessageQueue+DLQ op strings with reaction scripts (ack, late ack, reject, timeout), Topic fan-out/replay, EventLog offsets/retention/sharding, ConsumerGroup rebalances for every strategy, OutboxRelay + IdempotencyStore.",
+        "Trusted: harness dispatch log matching deliveries to dispatches; stream-processor conservation is extra (not in the statement).",
     ),
     "C20": (
         "exploration",
